@@ -470,6 +470,33 @@ func runC12(env *lib.Env, rep *lib.Report) {
 			}
 		}
 	}
+	// a refused update (value over the limit) must leave the page exactly as it was
+	for n := 1; n <= 4; n++ {
+		for _, from := range []int{0, 2, 100, 400} {
+			for pos := 0; pos < n; pos++ {
+				for _, tooBig := range []int{401, 402, 1000, 5000} {
+					keys, sz, del := mk(n, 20)
+					for i := range sz {
+						sz[i] = from
+					}
+					l := &c12Leaf{keys: keys, sizes: sz, deleted: del, lsn: 3, off: 8192}
+					node := l.build()
+					before := c12Logical(node)
+					err := node.updateCell(keys[pos], c12Value(tooBig, 79))
+					desc := fmt.Sprintf("leaf n=%d all cells %d bytes, update of cell %d to %d bytes", n, from, pos, tooBig)
+					if err == nil {
+						rep.AddFailure(&lib.Failure{Kind: "oversized-update-accepted", Detail: desc + " was accepted", Trace: []string{desc}})
+						continue
+					}
+					if after := c12Logical(node); after != before {
+						rep.AddFailure(&lib.Failure{Kind: "refused-update-changed-node", Detail: desc + " was refused but changed the node: " + after + " (before: " + before + ")", Trace: []string{desc}})
+						continue
+					}
+					r.check(desc+" (refused)", node, true, true)
+				}
+			}
+		}
+	}
 	rep.Bounds["updated leaves"] = "leaves of 1..4 cells, each cell rewritten by updateCell from every size to every size of the size set, once and twice"
 	// --- internal nodes
 	for _, n := range []int{0, 1, 2, 3, 144, 145, 289, maxInternalNodeCells} {
